@@ -191,6 +191,11 @@ def literal_table(fn: ast.FunctionDef, mod=None, cls=None) -> Dict[str, str]:
             for rv in result_vars:
                 if rv in p.env:
                     p.value = p.env[rv]
+        if p.value is None:
+            # the result stored on the node directly from a helper's value (`tree.transpiled = self._text(tree)`)
+            stored = [v for k, v in p.env.items() if "." in k and k.split(".", 1)[1] in ("transpiled",)]
+            if stored:
+                p.value = stored[-1]
         admitted = set(ALL)
         typed = False
         for t, pol in flat_conds(p.conds):
@@ -360,8 +365,11 @@ def check(repo: Repo, run: Run) -> None:
         w = want_ctor.get(term)
         for label, tab in (("Evaluator", ti), ("Phase1Transpiler", tt)):
             got = tab.get(term)
-            ok = got is not None and w is not None and w in got
-            run.ob("C07.L6", f"{label}.literal|{term}", ok, f"{label}.literal builds `{(got or 'nothing')[:60]}` for {term}; needs {w}", str(ev.path))
+            if got is None:
+                run.inconclusive("C07.L6", f"{label}.literal|{term}", f"what {label}.literal builds for {term} could not be read off its paths")
+                continue
+            ok = w is not None and w in got
+            run.ob("C07.L6", f"{label}.literal|{term}", ok, f"{label}.literal builds `{got[:60]}` for {term}; needs {w}", str(ev.path))
     for label, tab in (("Evaluator", ti), ("Phase1Transpiler", tt)):
         u = tab.get("UINT_LIT", "")
         run.shape("C07.L6", f"{label}.literal|UINT suffix", "[:-1]" in u, f"{label}.literal strips the u suffix: `{u[:60]}`", str(ev.path))
